@@ -79,6 +79,7 @@ func New(id, level string) *Check {
 		}
 	}
 	c.deadline = c.start.Add(budget)
+	current = c
 	f, err := os.Open(filepath.Join(Root, "KNOWN_FINDINGS.jsonl"))
 	if err == nil {
 		sc := bufio.NewScanner(f)
@@ -297,7 +298,12 @@ func (c *Check) Finish() {
 	os.Exit(0)
 }
 
-// ParFor runs f(i) for i in [0,n) on all cores; f must be safe for concurrent use.
+// current is the check of this process (set by New): ParFor consults its deadline.
+var current *Check
+
+// ParFor runs f(0..n-1) on all cores. Items are taken in order (callers order them simplest
+// first); once the internal deadline of the check has passed the remaining items are skipped and
+// the cap is recorded (exhaustive:false).
 func ParFor(n int, f func(i int)) {
 	p := runtime.NumCPU()
 	if p > n {
@@ -319,6 +325,13 @@ func ParFor(n int, f func(i int)) {
 				next++
 				mu.Unlock()
 				if i >= n {
+					return
+				}
+				if current != nil && (n < 4096 || i%64 == 0) && time.Now().After(current.deadline) {
+					current.Cap(fmt.Sprintf("internal deadline reached in a parallel loop at item %d of %d", i, n))
+					mu.Lock()
+					next = n
+					mu.Unlock()
 					return
 				}
 				f(i)
